@@ -2,16 +2,58 @@ import os
 SOLVER = os.environ.get("C20_SOLVER", "cadical")
 
 META = {
-    "bounds": "filled in below",
-    "outside": "filled in below",
-    "assumptions": [],
+    "bounds": "template-symbolic inputs: the structure of each text (which parts, how long) is the job's concrete shape, every "
+              "'%x' position is a solver variable over the RFC 3986 / RFC 7230 character class x. "
+              "Request line (http_parse_req_line, http_get_method_fast): all 13 table methods + unknown tokens of 2..10 "
+              "(thorough 1..12) bytes; origin-form with 11 (thorough 17) slash arrangements (leading/doubled/trailing slashes, "
+              "pct-triplets, segments <= 3 bytes), query 0..4 bytes; absolute-form (http/https/generic scheme <= 4 bytes, "
+              "authority <= 4 bytes, with/without path and query); authority-form (CONNECT); asterisk-form; line ending with CRLF, "
+              "CRLF + <= 6 arbitrary bytes, or the end of the buffer; <= 40 bytes. Status line: reason-phrase 0..8 bytes. "
+              "Header lookup (http_hdr_val_get_ex/_get/_get_count): <= 3 fields, block <= 45 bytes, symbolic letter case / "
+              "token bytes in the looked-up name (and in the block for <= 2 name bytes), values <= 3 symbolic bytes with "
+              "symbolic/literal OWS, obs-folds at the start / middle / end of a value, block with and without final CRLF. "
+              "http_req_sec_chk: <= 3 fields with literal names (enumerated presence/spelling of Host, Content-Length, "
+              "Transfer-Encoding), symbolic values, arbitrary ('%b') bytes in line / name / value, symbolic method code 0..13; "
+              "oracle computed from the construction. Query (http_query_val_get_ex/_get/_del): <= 3 k=v pairs, <= 12 bytes. "
+              "Build variants: real Linux feature macros (libc memmem/memchr/strncasecmp) and, for a few shapes, liblcb's own "
+              "fallback memmem/mem_cmpi (LCB_FALLBACK).",
+    "outside": "longer texts and more fields than listed; header blocks with > 2 adjacent symbolic bytes or symbolic bytes in "
+               "front of the colon of more than one field (symbolic execution cannot use the class assumptions, every such byte "
+               "is a potential ':' / CR and the nested mem_find loops explode: measured > 8 GB); field names of "
+               "http_req_sec_chk with symbolic case only for Host (thorough); method tokens that do not start with A-Z are "
+               "refused by the library by design (asserted as EBADMSG, not as a finding); obs-text (>= 0x80) and DEL in header "
+               "blocks count as 'control bytes' per the library's documented rule 2 (asserted as rejected); whitespace other "
+               "than SP before the colon (HTAB) is not one of the listed patterns and is not decided; single-byte edits that "
+               "break the request-line grammar (only sub-span safety could be asserted; memory safety of malformed input is "
+               "C13's obligation); http_hdr_val_remove, http_data_decode_chunked, http_url_decode, wsp2sp/ht2sp are not part of "
+               "the property; query pairs without '=' or with an empty key",
+    "assumptions": [
+        "libc: memchr/memrchr/strnlen bodies of /verif/lib/libc_models.h, CBMC's built-in strncasecmp/memcmp/memmove, and "
+        "harness/common/libcenv/libc_env.h:v_memmem (CBMC-only body for memmem, same man-page contract as libc_models.h but "
+        "with the full-match test inside the comparison loop so that symbolic execution does not invent matches); natively "
+        "the real glibc functions",
+        "header blocks without a final CRLF are followed by the CRLFCRLF of the receive buffer inside the same object "
+        "(PAD=4), exactly as http_server.c calls these functions (hdr_size stops before CRLFCRLF); blocks with a final CRLF "
+        "and all request/status lines and queries are exactly sized objects",
+        "CBMC's 'pointer relation: pointer outside object bounds' check is excluded in hdr/sec/query jobs (mem_chr_ptr is "
+        "handed end+2 after a non-matching last field; not observable natively; memory safety of these parsers is C13)",
+        "a header block whose LAST field has an empty / all-OWS value and no final CRLF is not generated for exactly sized "
+        "objects (skip_spwsp2 reads one byte past the block: memory-safety defect handed to C13)",
+        "query keys are compared ignoring ASCII letter case (the library's mem_cmpin convention; RFC 3986 defines no pair syntax)",
+        "path expectation: start = last '/' of the leading slash run; end = RFC path end minus trailing slashes when there is "
+        "no query (comment 'Remove slash~s from tail' sits in that branch only) and anywhere between that and the RFC path "
+        "end when there is a query",
+        "KF_REQLINE_ORIGIN_SCHEME (while finding reqline_origin_scheme is unfixed): origin-form targets contain no \"://\"",
+        "KF_REQLINE_AUTH_QUERY (while finding reqline_auth_query is unfixed): absolute-form targets with a query have a non-empty path",
+    ],
     "harness_functions": ["harness", "t_emit", "t_len", "t_syms", "c_class", "c_alpha", "c_digit", "c_unres", "c_subdel",
                           "c_pchar", "c_query", "c_auth", "c_scheme", "c_tchar", "c_hex", "c_vchar", "c_reason",
-                          "ref_method_code", "has_cs", "v_alloc", "v_buf", "memchr", "memrchr", "memmem", "strnlen",
-                          "v_memcpy_same_ok"],
+                          "ref_method_code", "has_cs", "ci_eq", "ci_is", "is_ws", "v_alloc", "v_buf", "memchr", "memrchr",
+                          "memmem", "v_memmem", "strnlen", "strncasecmp", "memcmp", "memmove", "memset", "malloc",
+                          "explicit_bzero", "v_memcpy_same_ok"],
 }
 
-KF = {"KF_REQLINE_ORIGIN_SCHEME": None, "KF_REQLINE_AUTH_QUERY": None}   # blocking assumptions for reported findings (see findings/)
+KF = {} if os.environ.get("C20_NO_KF") else {"KF_REQLINE_ORIGIN_SCHEME": None, "KF_REQLINE_AUTH_QUERY": None}   # blocking assumptions for reported findings (see findings/)
 
 
 def cstr(s):
@@ -134,7 +176,7 @@ def reqline_jobs(tier):
     out.append(reqline_job("origin-noeol", 0, "GET", path="/%p%p", query="%q", tail=""))
     out.append(reqline_job("origin-tail", 0, "GET", path="/%p%p", query="%q", tail="\r\n%b%b%b%b"))
     out.append(reqline_job("origin-tail2", 0, "HEAD", path="//%p/", tail="\r\n%b%b%b%b%b%b"))
-    out.append(reqline_job("origin-fallback", 0, "GET", path="//%p/%p/", query="%q%q", lcb_fallback=True))
+    out.append(reqline_job("origin-fallback", 0, "GET", path="//%p/", query="%q", lcb_fallback=True, timeout=300))
     # absolute-form
     absf = [("http", "%h", "", None), ("http", "%h%h", "/", None), ("https", "%h:%d%d", "/%p", "%q"),
             ("http", "%h%h%h", "//%p//", None), ("%a%s", "%h", "/%p/%p", "%q%q"), ("http", "%h", "", "%q"),
@@ -170,7 +212,7 @@ def respline_jobs(tier):
 def hdr_job(name, fields, look, end="", line="R", lcb_fallback=False, timeout=None, mode=1):
     total = tlen(line) + tlen(end) + sum(3 + tlen(n) + tlen(v) for n, v in fields)
     nsym = tsyms(line) + tsyms(end) + tsyms(look) + sum(tsyms(n) + tsyms(v) for n, v in fields)
-    defs = {"MODE": mode, "NF": len(fields), "T_LOOK": cstr(look), "LOOKLEN": tlen(look), "T_LINE": cstr(line), "T_END": cstr(end),
+    defs = {"PAD": 4 if end == "" else 0, "MODE": mode, "NF": len(fields), "T_LOOK": cstr(look), "LOOKLEN": tlen(look), "T_LINE": cstr(line), "T_END": cstr(end),
             "TOTAL": total, "NSYM": nsym}
     for i, (n, v) in enumerate(fields):
         defs["T_N%d" % (i + 1)] = cstr(n)
@@ -240,7 +282,8 @@ def hdr_jobs(tier):
         for mode in modes:
             out.append(hdr_job(n, f, l, end=e, mode=mode, timeout=300 if q else None))
     out.append(hdr_job("one-fallback", [("Host", " %v")], HOST, mode=1, lcb_fallback=True, timeout=300 if q else None))
-    out.append(hdr_job("one-fallback", [("Host", " %v")], HOST, mode=3, lcb_fallback=True, timeout=300 if q else None))
+    if not q:
+        out.append(hdr_job("one-fallback", [("Host", " %v")], HOST, mode=3, lcb_fallback=True))
     return out
 
 
@@ -248,7 +291,7 @@ def hdr_jobs(tier):
 def sec_job(name, fields, end="", line="R", name_token_only=False, lcb_fallback=False, timeout=None):
     total = tlen(line) + tlen(end) + sum(3 + tlen(n) + tlen(v) for n, v in fields)
     nsym = tsyms(line) + tsyms(end) + sum(tsyms(n) + tsyms(v) for n, v in fields)
-    defs = {"NF": len(fields), "T_LINE": cstr(line), "T_END": cstr(end), "TOTAL": total, "NSYM": nsym}
+    defs = {"PAD": 4 if end == "" else 0, "NF": len(fields), "T_LINE": cstr(line), "T_END": cstr(end), "TOTAL": total, "NSYM": nsym}
     for i, (n, v) in enumerate(fields):
         defs["T_N%d" % (i + 1)] = cstr(n)
         defs["T_V%d" % (i + 1)] = cstr(v)
@@ -260,7 +303,8 @@ def sec_job(name, fields, end="", line="R", name_token_only=False, lcb_fallback=
     ncrlf = text.count("\r\n") + text.count("%b%b")
     j = {"name": "sec-" + name, "src": "sec.c", "defs": defs, "unwind": total + 4, "solver": SOLVER,
          "unwindset": ["http_hdr_val_get_count.0:%d" % (ncrlf + 2), "http_hdr_val_get_ex.0:%d" % (ncrlf + 2),
-                       "http_hdr_val_get_ex.1:%d" % (ncrlf + 2)],
+                       "http_hdr_val_get_ex.1:%d" % (ncrlf + 2), "memchr.0:%d" % (total + 5), "v_memmem.0:%d" % (total + 1),
+                       "v_memmem.1:%d" % (total + 1), "skip_spwsp2.0:%d" % (total + 1), "skip_spwsp2.1:%d" % (total + 1)],
          "prop_exclude": "pointer relation",
          "shape": "header block template %r (%d bytes), method code symbolic 0..13, %s" % (
              text, total, "real Linux build macros" if not lcb_fallback else "liblcb fallback memmem/mem_cmpi"),
@@ -274,29 +318,39 @@ def sec_job(name, fields, end="", line="R", name_token_only=False, lcb_fallback=
 def sec_jobs(tier):
     q = tier == "quick"
     CL, TE = "Content-Length", "Transfer-Encoding"
+    # Field NAMES are literal in most shapes (enumerated defect selector: which of Host / CL / TE are present, how often
+    # and in which spelling is the shape), everything else is symbolic: a symbolic byte in front of the colon makes the
+    # position of the colon itself ambiguous for CBMC's symbolic execution (248 s / out of memory at 8 GB for 2 fields).
     S = [
         ("none-cl-get", [("Host", " %v"), (CL, " %d")], "", "G / H", False),
         ("none-2", [("Host", " %va"), ("Accept", " %v")], "\r\n", "R", False),
-        ("dup-host", [("Host", " a"), ("hOS%t", " b")], "", "R", False),
-        ("dup-cl", [(CL, " %d"), ("content-lengt%t", " 1")], "", "R", False),
-        ("dup-te", [(TE, " x"), ("transfer-encodin%t", " y")], "", "R", False),
-        ("cl-te", [(CL, " %d"), ("Transfer-Encodin%t", " x")], "", "R", False),
+        ("none-val3", [("Host", " %va%v"), ("X", "%wb%w")], "", "R", False),
+        ("none-te", [("Host", "%v"), (TE, " %va")], "", "R", False),
+        ("none-hosts", [("Host", " %v"), ("Hosts", " %v"), ("Hos", "%v")], "", "R", False),
+        ("dup-host", [("Host", " %v"), ("hOST", "%v")], "", "R", False),
+        ("dup-host-end", [("HOST", "%v"), ("X", "%v"), ("host", "%v")], "\r\n", "R", False),
+        ("dup-cl", [(CL, " %d"), ("CONTENT-length", "%d")], "", "R", False),
+        ("dup-te", [(TE, " %v"), ("transfer-ENCODING", "%v")], "", "R", False),
+        ("cl-te", [(CL, " %d"), (TE, " %v")], "", "R", False),
+        ("te-cl-host", [(TE, "%v"), ("Host", "%v"), ("content-length", "%d")], "", "R", False),
         ("ctrl-val", [("Host", " a%bc")], "", "R", False),
+        ("ctrl-val2", [("Host", "%b"), (CL, "%b")], "", "R", False),
         ("ctrl-line", [("Host", " a")], "", "G%b H", False),
         ("ctrl-name", [("Ho%bst", " a")], "", "R", True),
-        ("ctrl-pair", [("Host", " a%b%bc")], "", "R", False),
         ("sp-colon-name", [("Host%w", " a")], "", "R", False),
         ("sp-colon-val", [("Host", " a%w:b")], "", "R", False),
+        ("sp-colon-val2", [("Host", "%b%b")], "", "R", False),
         ("sp-colon-line", [("Host", " a")], "", "G%w:", False),
-        ("fold-hide", [("X", " a\r\n Host: b"), ("Hos%t", " c")], "", "R", False),
-        ("three", [("Host", " a"), (CL, " 1"), ("Hos%t", "b")], "", "R", False),
+        ("fold-hide", [("X", " a\r\n Host: %v"), ("Host", " %v")], "", "R", False),
+        ("fold-hide-cl", [(CL, " 1\r\n\tTransfer-Encoding: %v")], "", "R", False),
     ]
     if not q:
         S += [
-            ("three-te", [(TE, " a"), ("Hos%t", " 1"), ("Transfer-Encodin%t", "b")], "\r\n", "R", False),
-            ("case-cl", [("%cContent-Lengt%ch", " 1"), ("a", "b")], "", "R", False),
+            ("ctrl-pair", [("Host", " a%b%bc")], "", "R", False),
+            ("dup-host-sym", [("Host", " a"), ("hOS%t", " b")], "", "R", False),
             ("ctrl-end", [("Host", " a")], "%b", "R", False),
-            ("val-2", [("Host", " %v%v"), (CL, "%w%d")], "", "R", False),
+            ("none-val5", [("Host", " %v%v%v%v%v"), (CL, "%w%d%d")], "", "GET /%p HTTP/1.1", False),
+            ("case-host", [("%cHos%ct", " 1"), ("host", "b")], "", "R", False),
         ]
     out = [sec_job(n, f, end=e, line=l, name_token_only=t, timeout=300 if q else None) for n, f, e, l, t in S]
     if not q:
@@ -304,5 +358,59 @@ def sec_jobs(tier):
     return out
 
 
+# ------------------------------------------------------------------ query access
+def query_job(name, pairs, look, mode, pre="", post="", sep="&", timeout=None):
+    total = tlen(pre) + tlen(post) + sum(1 + tlen(k) + tlen(v) for k, v in pairs) + tlen(sep) * (len(pairs) - 1)
+    nsym = tsyms(look) + sum(tsyms(k) + tsyms(v) for k, v in pairs)
+    defs = {"MODE": mode, "NP": len(pairs), "T_LOOK": cstr(look), "LOOKLEN": tlen(look), "T_PRE": cstr(pre), "T_POST": cstr(post),
+            "T_SEP": cstr(sep), "TOTAL": total, "NSYM": nsym}
+    for i, (k, v) in enumerate(pairs):
+        defs["T_K%d" % (i + 1)] = cstr(k)
+        defs["T_V%d" % (i + 1)] = cstr(v)
+    text = pre + sep.join(k + "=" + v for k, v in pairs) + post
+    amp = len(sep) + 2
+    j = {"name": "query-%s-%s" % (name, {1: "get", 2: "del"}[mode]), "src": "query.c", "defs": defs, "unwind": total + 3,
+         "solver": SOLVER, "prop_exclude": "pointer relation",
+         # loops over pairs / over runs of '&': true bounds (confirmed by the unwinding assertions)
+         "unwindset": ["http_query_val_del.0:%d" % (len(pairs) + 2), "http_query_val_del.1:%d" % amp, "http_query_val_del.2:%d" % amp,
+                       "http_query_val_get_ex.0:%d" % amp, "http_query_val_get_ex.1:%d" % (len(pairs) + 2),
+                       "http_query_val_get_ex.2:%d" % amp, "memchr.0:%d" % (total + 1)],
+         "shape": "query template %r (%d bytes), looked-up key template %r" % (text, total, look),
+         "desc": {1: "http_query_val_get_ex / http_query_val_get: first pair whose key matches (case-insensitive): key pointer, "
+                     "value span; error if none",
+                  2: "http_query_val_del: returns number of matching pairs; remaining text = other pairs in order joined by '&'"}[mode]}
+    if timeout:
+        j["timeout"] = timeout
+    return j
+
+
+def query_jobs(tier):
+    q = tier == "quick"
+    out = []
+    # del: keys/values literal, looked-up key symbolic (a symbolic byte inside the query makes the '=' / '&' positions and
+    # hence the memmove length ambiguous for symbolic execution: 3-byte query "%k=%k" needs 60 s, 7 bytes > 300 s)
+    S = [  # name, pairs, look, modes, pre, post, sep
+        ("one", [("%k", "%k")], "%k", (1, 2), "", "", "&"),
+        ("one-empty-val", [("%k%k", "")], "%k%k", (1,), "", "", "&"),
+        ("two", [("%k", "%k"), ("%k", "%k")], "%k", (1,), "", "", "&"),
+        ("two-lit", [("ab", "%k"), ("AB", "%k=")], "%ca%cb", (1,), "", "", "&"),
+        ("two-len", [("a", "1"), ("ab", "%k")], "%k%k", (1,), "", "", "&"),
+        ("three-lit", [("a", "%k"), ("b", ""), ("A", "%k")], "%ca", (1,), "", "", "&"),
+        ("three", [("%k", "1"), ("%k", "2"), ("%k", "3")], "%k", (1,), "", "", "&"),
+        ("pre-amp", [("a", "%k"), ("b", "%k")], "%k", (1,), "&", "", "&"),
+        ("post-amp", [("a", "%k"), ("b", "%k")], "%k", (1,), "", "&", "&"),
+        ("sep2", [("a", "%k"), ("b", "%k")], "%k", (1,), "", "", "&&"),
+        ("d2", [("a", "1"), ("b", "2")], "%k", (2,), "", "", "&"),
+        ("d2-dup", [("a", "1"), ("A", "22")], "%ca", (2,), "", "", "&"),
+        ("d3", [("a", "1"), ("b", ""), ("A", "3")], "%k", (2,), "", "", "&"),
+        ("d3-mid", [("x", "1"), ("ab", "2"), ("y", "3")], "%ca%cb", (2,), "", "", "&"),
+        ("d1-val", [("ab", "%k")], "%ca%cb", (2,), "", "", "&"),
+    ]
+    for n, p, l, modes, pre, post, sep in S:
+        for m in modes:
+            out.append(query_job(n, p, l, m, pre=pre, post=post, sep=sep, timeout=300 if q else None))
+    return out
+
+
 def jobs(tier):
-    return reqline_jobs(tier) + respline_jobs(tier) + hdr_jobs(tier) + sec_jobs(tier)
+    return reqline_jobs(tier) + respline_jobs(tier) + hdr_jobs(tier) + sec_jobs(tier) + query_jobs(tier)
